@@ -161,6 +161,26 @@ struct V27 { a: i32, b: i32, c: i32, d: i32 } }
 fam! { #[derive(SerializeValue, DeserializeValue)] #[scylla(flavor = "enforce_order")]
 struct V28 { a: i32, #[scylla(allow_missing)] b: i32, c: i32, #[scylla(allow_missing)] d: i32, e: i32 } }
 
+fam! { #[derive(SerializeValue, DeserializeValue)] #[scylla(forbid_excess_udt_fields)]
+struct V29 { #[scylla(rename = "x")] a: i32, #[scylla(skip)] s: String, #[scylla(default_when_null)] b: String, c: Option<i32> } }
+fam! { #[derive(SerializeValue, DeserializeValue)] #[scylla(flavor = "enforce_order")]
+struct V30 { #[scylla(rename = "x")] a: i32, #[scylla(rename = "y", allow_missing)] b: String, c: Option<i32> } }
+fam! { #[derive(SerializeValue, DeserializeValue)] #[scylla(flavor = "enforce_order", skip_name_checks)]
+struct V31 { #[scylla(default_when_null)] a: i32, #[scylla(default_when_null)] b: String, #[scylla(allow_missing)] c: Option<i32> } }
+// six bound fields with attributes
+fam! { #[derive(SerializeValue, DeserializeValue)]
+struct V32 {
+    #[scylla(allow_missing)] a: i32,
+    #[scylla(rename = "x", default_when_null)] b: String,
+    #[scylla(skip)] s: i32,
+    c: Option<i32>,
+    #[scylla(allow_missing, default_when_null)] d: i32,
+    e: Option<String>,
+    f: String,
+} }
+fam! { #[derive(SerializeValue, DeserializeValue)] #[scylla(flavor = "enforce_order", forbid_excess_udt_fields)]
+struct V33 { #[scylla(rename = "x", default_when_null)] a: i32, #[scylla(skip)] s: String, b: String, #[scylla(allow_missing)] c: Option<i32> } }
+
 // ------------------------------------------------------------------ the family: rows
 
 fam! { #[derive(SerializeRow, DeserializeRow)]
@@ -187,6 +207,13 @@ fam! { #[derive(SerializeRow, DeserializeRow)]
 struct R11 { a: Option<i32> } }
 fam! { #[derive(SerializeRow, DeserializeRow)]
 struct R12 { #[scylla(rename = "b")] a: i32, #[scylla(rename = "a")] b: String } }
+
+fam! { #[derive(SerializeRow, DeserializeRow)] #[scylla(flavor = "enforce_order")]
+struct R13 { #[scylla(rename = "x", default_when_null)] a: i32, #[scylla(skip)] s: String, #[scylla(default_when_null)] b: Option<String> } }
+fam! { #[derive(SerializeRow, DeserializeRow)] #[scylla(flavor = "enforce_order", skip_name_checks)]
+struct R14 { #[scylla(default_when_null)] a: i32, b: String } }
+fam! { #[derive(SerializeRow, DeserializeRow)]
+struct R15 { #[scylla(rename = "x", default_when_null)] a: i32, #[scylla(rename = "y", default_when_null)] b: Option<String>, c: String } }
 
 // flatten: SerializeRow only (DeserializeRow has no flatten)
 fam! { #[derive(SerializeRow)]
@@ -230,6 +257,19 @@ fam! { #[derive(SerializeRow)]
 struct Q10 { #[scylla(flatten)] r: Q2b, e: i32 } }
 fam! { #[derive(SerializeRow)]
 struct F10 { #[scylla(flatten)] q: Q10, #[scylla(flatten)] p: Q1 } }
+
+fam! { #[derive(SerializeRow)] #[scylla(flavor = "enforce_order")]
+struct Q13r { c: i32, d: String } }
+fam! { #[derive(SerializeRow)] #[scylla(flavor = "enforce_order")]
+struct Q13 { b: String, #[scylla(flatten)] r: Q13r } }
+fam! { #[derive(SerializeRow)] #[scylla(flavor = "enforce_order")]
+struct F13 { a: i32, #[scylla(flatten)] q: Q13 } }
+fam! { #[derive(SerializeRow)] #[scylla(flavor = "enforce_order")]
+struct Q14 { #[scylla(rename = "w")] u: i32, #[scylla(skip)] s: String, v: String } }
+fam! { #[derive(SerializeRow)] #[scylla(flavor = "enforce_order")]
+struct F14 { #[scylla(flatten)] q: Q14, z: i32 } }
+fam! { #[derive(SerializeRow)] #[scylla(flavor = "enforce_order", skip_name_checks)]
+struct F15 { a: i32, #[scylla(flatten)] q: Q8 } }
 
 // an empty struct, flattened (the shape of finding F16, fixed in /repo fb90e43)
 fam! { #[derive(SerializeRow)]
@@ -565,6 +605,11 @@ fn registry() -> Vec<Entry> {
         v_entry!(V26, "-/a:i:m;b:T:m"),
         v_entry!(V27, "-/a:i;b:i;c:i;d:i"),
         v_entry!(V28, "o/a:i;b:i:m;c:i;d:i:m;e:i"),
+        v_entry!(V29, "x/a>x:i;s:t:s;b:t:d;c:I"),
+        v_entry!(V30, "o/a>x:i;b>y:t:m;c:I"),
+        v_entry!(V31, "on/a:i:d;b:t:d;c:I:m"),
+        v_entry!(V32, "-/a:i:m;b>x:t:d;s:i:s;c:I;d:i:md;e:T;f:t"),
+        v_entry!(V33, "ox/a>x:i:d;s:t:s;b:t;c:I:m"),
         r_entry!(R01, "-/a:i;b:t;c:I"),
         r_entry!(R02, "-/a:i;b:t;c:I;d:i;e:T;f:t"),
         r_entry!(R03, "-/a>x:i;b:t"),
@@ -577,6 +622,9 @@ fn registry() -> Vec<Entry> {
         r_entry!(R10, "o/a:i:d;b:T"),
         r_entry!(R11, "-/a:I"),
         r_entry!(R12, "-/a>b:i;b>a:t"),
+        r_entry!(R13, "o/a>x:i:d;s:t:s;b:T:d"),
+        r_entry!(R14, "on/a:i:d;b:t"),
+        r_entry!(R15, "-/a>x:i:d;b>y:T:d;c:t"),
         f_entry!(F01, "-/x:i;q:{-/y:t;z:I}"),
         f_entry!(F02, "-/q1:{-/a:i;b:t};m:i;q2:{-/c:I}"),
         f_entry!(F03, "-/a:i;q:{-/b:t;r:{-/c:i;d:t}}"),
@@ -589,6 +637,9 @@ fn registry() -> Vec<Entry> {
         f_entry!(F10, "-/q:{-/r:{-/c:I};e:i};p:{-/y:t;z:I}"),
         f_entry!(F11, "-/e:{-/};x:i"),
         f_entry!(F12, "-/e:{-/};q:{-/c:I}"),
+        f_entry!(F13, "o/a:i;q:{o/b:t;r:{o/c:i;d:t}}"),
+        f_entry!(F14, "o/q:{o/u>w:i;s:t:s;v:t};z:i"),
+        f_entry!(F15, "on/a:i;q:{on/b:t;c:I}"),
     ]
 }
 
@@ -677,6 +728,111 @@ fn parse_shape(desc: &str) -> Shape {
     sh
 }
 
+// ------------------------------------------------------------------ descriptor self-check
+// The struct attributes and the registered descriptor text are written by hand twice.  This derives
+// the descriptor a second time from the struct's attribute text in this very source file, so that
+// drift between the two is reported (`XD` lines; the driver says `diff descriptor-drift`).
+const SOURCE: &str = include_str!("c16.rs");
+
+fn derive_desc(name: &str) -> Result<String, String> {
+    let pat = format!("struct {name} {{");
+    let at = SOURCE.find(&pat).ok_or_else(|| format!("struct {name} not found"))?;
+    let head_start = SOURCE[..at].rfind("fam! {").ok_or("no fam! before struct")?;
+    let head = &SOURCE[head_start..at];
+    let mut flags = String::new();
+    if head.contains("flavor = \"enforce_order\"") {
+        flags.push('o');
+    }
+    if head.contains("skip_name_checks") {
+        flags.push('n');
+    }
+    if head.contains("forbid_excess_udt_fields") {
+        flags.push('x');
+    }
+    if flags.is_empty() {
+        flags.push('-');
+    }
+    let body_start = at + pat.len();
+    let body_end = body_start + SOURCE[body_start..].find('}').ok_or("unterminated struct")?;
+    let body = &SOURCE[body_start..body_end];
+    // split the fields at commas outside parentheses / brackets / angle brackets
+    let mut fields: Vec<String> = vec![];
+    let (mut depth, mut cur) = (0i32, String::new());
+    for c in body.chars() {
+        match c {
+            '(' | '[' | '<' => depth += 1,
+            ')' | ']' | '>' => depth -= 1,
+            _ => {}
+        }
+        if c == ',' && depth == 0 {
+            fields.push(std::mem::take(&mut cur));
+        } else {
+            cur.push(c);
+        }
+    }
+    fields.push(cur);
+    let mut out: Vec<String> = vec![];
+    for f in fields.iter().map(|f| f.trim()).filter(|f| !f.is_empty()) {
+        // attributes: every #[scylla( ... )] group
+        let mut attrs = String::new();
+        let mut rest = f;
+        while let Some(i) = rest.find("#[scylla(") {
+            let j = i + rest[i..].find(")]").ok_or("unterminated attribute")?;
+            attrs.push_str(&rest[i + 9..j]);
+            attrs.push(',');
+            rest = &rest[j + 2..];
+        }
+        let (id, ty) = rest.trim().split_once(':').ok_or_else(|| format!("field without type: {f}"))?;
+        let (id, ty) = (id.trim(), ty.trim());
+        let mut name_part = id.to_string();
+        let mut letters = String::new();
+        let mut flatten = false;
+        let (mut am, mut dwn, mut skip) = (false, false, false);
+        for a in attrs.split(',').map(|a| a.trim()).filter(|a| !a.is_empty()) {
+            if let Some(v) = a.strip_prefix("rename") {
+                let v = v.trim().trim_start_matches('=').trim().trim_matches('"');
+                name_part = format!("{id}>{v}");
+            } else {
+                match a {
+                    "allow_missing" => am = true,
+                    "default_when_null" => dwn = true,
+                    "skip" => skip = true,
+                    "flatten" => flatten = true,
+                    other => return Err(format!("unknown attribute {other}")),
+                }
+            }
+        }
+        if am {
+            letters.push('m');
+        }
+        if dwn {
+            letters.push('d');
+        }
+        if skip {
+            letters.push('s');
+        }
+        let ty_part = match ty {
+            "i32" => "i".to_string(),
+            "String" => "t".to_string(),
+            "Option<i32>" => "I".to_string(),
+            "Option<String>" => "T".to_string(),
+            nested => {
+                if !flatten {
+                    return Err(format!("nested struct field {id} without flatten"));
+                }
+                format!("{{{}}}", derive_desc(nested)?)
+            }
+        };
+        let mut fd = format!("{name_part}:{ty_part}");
+        if !letters.is_empty() {
+            fd.push(':');
+            fd.push_str(&letters);
+        }
+        out.push(fd);
+    }
+    Ok(format!("{flags}/{}", out.join(";")))
+}
+
 fn native(t: &str) -> ColumnType<'static> {
     ColumnType::Native(match t {
         "i" => NativeType::Int,
@@ -718,6 +874,10 @@ fn specs(s: &str) -> Vec<ColumnSpec<'static>> {
 
 fn run_case(reg: &[Entry], case: &str) -> String {
     let f: Vec<&str> = case.split_whitespace().collect();
+    if f.len() == 4 && f[0] == "XD" {
+        let derived = derive_desc(f[1]).unwrap_or_else(|m| format!("error:{}", m.replace(' ', "_")));
+        return if reg.iter().any(|e| e.id == f[1] && e.desc == derived && f[2] == e.desc && f[3] == derived) { "same".into() } else { "differ".into() };
+    }
     if f.len() != 5 {
         return "error bad-case".into();
     }
@@ -823,6 +983,7 @@ fn permutations<T: Clone>(xs: &[T]) -> Vec<Vec<T>> {
 }
 
 struct Gen<'a> {
+    thorough: bool,
     reg: &'a [Entry],
     out: Out,
     r: Rng,
@@ -834,6 +995,7 @@ impl Gen<'_> {
     }
     /// one serialize case (+ round trip) and `nde` deserialize cases for the DB list
     fn cases_for_db(&mut self, e: &Entry, sh: &Shape, db: &[(String, String)], nde: usize, all_nulls: bool) {
+        let null_limit = if self.thorough { 6 } else { 4 };
         let is_v = e.sv.is_some();
         let dbs = db_str(db);
         let vals = gen_vals(&mut self.r, sh);
@@ -851,7 +1013,7 @@ impl Gen<'_> {
             }
             self.emit(format!("{} {} {} {} {}", kind, e.id, e.desc, dbs, cells_str(&cells)));
         }
-        if all_nulls && db.len() <= 4 {
+        if all_nulls && db.len() <= null_limit {
             for mask in 0..(1u32 << db.len()) {
                 let cells: Vec<Cell> = db
                     .iter()
@@ -870,9 +1032,13 @@ impl Gen<'_> {
         // (a) every permutation of the struct's own columns / fields
         let perms = permutations(&base);
         let reps = if thorough { 4 } else { 2 };
-        for p in &perms {
-            for _ in 0..reps {
-                self.cases_for_db(e, &sh, p, 1, k <= 3);
+        let null_limit = if thorough { 6 } else { 4 };
+        for (pi, p) in perms.iter().enumerate() {
+            // every null pattern: for all orders of small structs, for the declared and the reversed
+            // order of the larger ones
+            let nulls = k <= 3 || (k <= null_limit && (pi == 0 || pi + 1 == perms.len()));
+            for rep in 0..reps {
+                self.cases_for_db(e, &sh, p, 1, nulls && rep == 0);
             }
         }
         // a few orders used below: identity, reversed, two random
@@ -1007,7 +1173,12 @@ fn main() {
         out.finish();
         return;
     }
-    let mut g = Gen { reg: &reg, out, r: Rng::new(a.seed) };
+    let mut g = Gen { thorough: a.tier == "thorough", reg: &reg, out, r: Rng::new(a.seed) };
+    for e in reg.iter() {
+        let derived = derive_desc(e.id).unwrap_or_else(|m| format!("error:{}", m.replace(' ', "_")));
+        let same = if derived == e.desc { "same" } else { "differ" };
+        g.out.case(&format!("XD {} {} {}", e.id, e.desc, derived), same);
+    }
     let thorough = a.tier == "thorough";
     for e in reg.iter() {
         g.structured(e, thorough);
